@@ -76,7 +76,7 @@ def foreign_sources(f, declared='cls'):
 
 
 def is_subclass_guard(e, name, declared):
-    if not isinstance(e, ast.Call) or call_name(e) != 'issubclass':
+    if not isinstance(e, ast.Call) or call_name(e) not in GUARD_HELPERS:
         return False
     if len(e.args) != 2:
         return False
@@ -403,61 +403,176 @@ def origins(f, roots):
     return org
 
 
+GUARD_HELPERS = {'issubclass'}     # extended by guard_helpers()
+
+
+def guard_helpers(prog, res=None):
+    """Methods of ProtocolMixin that are sound subclass guards: with the
+    candidate class as first and the declared class as second parameter they
+    can answer True only after issubclass(<candidate-derived>,
+    <declared-derived>) - directly or through another sound helper - held."""
+    c = prog.cls('spyne.protocol._base:ProtocolMixin')
+    sound = {}
+    def _is_static(m):
+        return any(isinstance(d, ast.Name) and d.id == 'staticmethod'
+                   for d in m.node.decorator_list)
+    cands = [m for nm, m in sorted(c.methods.items())
+             if len(m.params()) == (2 if _is_static(m) else 3) and (
+                 nm == 'issubclass' or nm.startswith('is_'))]
+    # a classmethod's first parameter is the class itself
+    for _ in range(3):
+        for f in cands:
+            ps = f.params()
+            is_static = any(isinstance(d, ast.Name) and d.id == 'staticmethod'
+                            for d in f.node.decorator_list)
+            params = ps if is_static else ps[1:]
+            if len(params) != 2:
+                continue
+            cand, decl = params
+            org = origins(f, params)
+            problems = []
+            tests = []
+            for call in calls_in(f.node):
+                nm = call_name(call)
+                if len(call.args) != 2:
+                    continue
+                builtin = isinstance(call.func, ast.Name) and \
+                    call.func.id == 'issubclass'
+                helper = isinstance(call.func, ast.Attribute) and (
+                    nm in sound and sound[nm])
+                if not (builtin or helper):
+                    continue
+                a = {o for x in ast.walk(call.args[0])
+                     if isinstance(x, ast.Name) for o in org.get(x.id, ())}
+                b = {o for x in ast.walk(call.args[1])
+                     if isinstance(x, ast.Name) for o in org.get(x.id, ())}
+                if a == {cand} and b == {decl}:
+                    tests.append(call)
+                elif a == b and len(a) == 1:
+                    pass        # a kind test on one class (issubclass(c, Array))
+                elif isinstance(call.args[1], ast.Name) and \
+                        call.args[1].id[:1].isupper():
+                    pass        # issubclass(x, SomeClass)
+                else:
+                    problems.append((call, a, b))
+            # every way of answering True is behind such a test
+            for r in walk_no_defs(f.node):
+                if not isinstance(r, ast.Return) or r.value is None:
+                    continue
+                v = r.value
+                if isinstance(v, ast.Constant) and v.value is False:
+                    continue
+                if v in tests or (isinstance(v, ast.Call) and v in tests):
+                    continue
+                g = flatten_guards(guards_at(r, stop=f.node))
+                if not any(pol and e in tests for e, pol in g) and not any(
+                        pol and isinstance(e, ast.Call) and any(
+                            e is t for t in tests) for e, pol in g):
+                    # dominated by `if not TEST: return False`?
+                    dom = any(pol and unparse(e) in {unparse(t)
+                                                     for t in tests}
+                              for e, pol in g)
+                    if not dom:
+                        problems.append((r, None, None))
+            sound[f.name] = (not problems) and bool(tests)
+            f._c04_problems = problems
+            f._c04_tests = tests
+            f._c04_params = (cand, decl)
+    GUARD_HELPERS.clear()
+    GUARD_HELPERS.update({'issubclass'} | {k for k, v in sound.items() if v})
+    return cands, sound
+
+
 def rule_r5(prog, res):
-    res.rule('R5', 'the subclass helper answers True only through '
-             'issubclass(<candidate>, <declared>) in that order')
+    res.rule('R5', 'the subclass helpers answer True only through '
+             'issubclass(<candidate>, <declared>) in that order; __orig__ is '
+             'read from the class itself; arrays compare member types')
+    cands, sound = guard_helpers(prog)
+    n = 0
+    for f in cands:
+        cand, decl = getattr(f, '_c04_params', ('?', '?'))
+        for call in getattr(f, '_c04_tests', []):
+            n += 1
+            res.ob('R5', '%s:%d' % (f.module.relpath, call.lineno),
+                   '%s: %s tests the candidate (%s) against the declared '
+                   'class (%s)' % (f.qualname, unparse(call)[:60], cand,
+                                   decl), 'ok', nontrivial=True)
+        for node, a, b in getattr(f, '_c04_problems', []):
+            where = '%s:%d' % (f.module.relpath, node.lineno)
+            if a is None:
+                res.ob('R5', where, '%s: %s is not behind a subclass test' % (
+                    f.qualname, unparse(node)[:50]), 'VIOLATED')
+                res.finding('R5', '%s|return-untested|%s' % (
+                    f.qualname, unparse(node)[:40]), where,
+                    '%s can answer %s without a subclass test of the '
+                    'candidate against the declared class on that path' % (
+                        f.qualname, unparse(node)[:50]))
+            else:
+                res.ob('R5', where, '%s: %s compares a value derived from %s '
+                       'against one derived from %s' % (
+                           f.qualname, unparse(node)[:60], sorted(a),
+                           sorted(b)), 'VIOLATED', nontrivial=True)
+                res.finding('R5', '%s|%s' % (f.qualname, unparse(node)),
+                            where, 'the helper every reader trusts for its '
+                            'subclass guard evaluates %s, whose first '
+                            'argument derives from %s and second from %s: it '
+                            'must test the candidate (%s) against the '
+                            'declared class (%s); as written siblings or '
+                            'ancestors of the declared class are accepted' % (
+                                unparse(node), sorted(a), sorted(b), cand,
+                                decl))
+    res.floor('R5', 'subclass tests in the guard helpers', n, 1)
+    # __orig__ must come from the class's own namespace: a class that merely
+    # inherits from a customized one inherits __orig__ too
     c = prog.cls('spyne.protocol._base:ProtocolMixin')
     f = c.methods.get('issubclass')
     if f is None:
         raise AnalysisError('ProtocolMixin.issubclass', 'not found')
-    params = [p for p in f.params() if p != 'self']
-    if len(params) != 2:
-        raise AnalysisError('ProtocolMixin.issubclass', 'expected two '
-                            'parameters, got %r' % params)
-    cand, decl = params
-    org = origins(f, params)
-    n = 0
-    for call in calls_in(f.node):
-        if not (isinstance(call.func, ast.Name) and
-                call.func.id == 'issubclass' and len(call.args) == 2):
-            continue
-        n += 1
-        a = {o for x in ast.walk(call.args[0]) if isinstance(x, ast.Name)
-             for o in org.get(x.id, ())}
-        b = {o for x in ast.walk(call.args[1]) if isinstance(x, ast.Name)
-             for o in org.get(x.id, ())}
-        ok = a == {cand} and b == {decl}
-        where = '%s:%d' % (f.module.relpath, call.lineno)
-        res.ob('R5', where, 'ProtocolMixin.issubclass: %s compares a value '
-               'derived from %s against one derived from %s' % (
-                   unparse(call)[:60], sorted(a), sorted(b)),
-               'ok' if ok else 'VIOLATED', nontrivial=True)
-        if not ok:
-            res.finding('R5', 'ProtocolMixin.issubclass|%s' % unparse(call),
-                        where, 'the helper every reader trusts for its '
-                        'subclass guard evaluates %s, whose first argument '
-                        'derives from %s and second from %s: it must test '
-                        'the candidate (%s) against the declared class (%s); '
-                        'as written siblings or ancestors of the declared '
-                        'class are accepted' % (
-                            unparse(call), sorted(a), sorted(b), cand, decl))
-    # True may only be returned as the value of such a call
-    for r in walk_no_defs(f.node):
-        if isinstance(r, ast.Return) and isinstance(
-                r.value, ast.Constant) and r.value.value is True:
-            g = flatten_guards(guards_at(r, stop=f.node))
-            ok = any(pol and isinstance(e, ast.Call) and isinstance(
-                e.func, ast.Name) and e.func.id == 'issubclass'
-                for e, pol in g)
-            where = '%s:%d' % (f.module.relpath, r.lineno)
-            res.ob('R5', where, 'ProtocolMixin.issubclass: return True under '
-                   '%s' % [unparse(e)[:40] for e, _ in g],
-                   'ok' if ok else 'VIOLATED')
-            if not ok:
-                res.finding('R5', 'ProtocolMixin.issubclass|return-True',
-                            where, 'the helper returns True without a '
-                            'builtin issubclass test on that path')
-    res.floor('R5', 'builtin issubclass calls in the helper', n, 1)
+    inherited = [x for x in calls_in(f.node) if call_name(x) == 'getattr' and
+                 len(x.args) >= 2 and isinstance(x.args[1], ast.Constant) and
+                 x.args[1].value == '__orig__'] + [
+        x for x in walk_no_defs(f.node) if isinstance(x, ast.Attribute) and
+        x.attr == '__orig__' and isinstance(x.ctx, ast.Load)]
+    own = [x for x in walk_no_defs(f.node) if isinstance(x, ast.Constant) and
+           x.value == '__orig__' and not any(
+               x is y.args[1] for y in calls_in(f.node)
+               if call_name(y) == 'getattr' and len(y.args) >= 2)]
+    ok = not inherited and bool(own)
+    res.ob('R5', f.where, 'ProtocolMixin.issubclass reads __orig__ %s' % (
+        'from the class\'s own namespace' if ok else 'through attribute '
+        'lookup (inherited)'), 'ok' if ok else 'VIOLATED')
+    if not ok:
+        res.finding('R5', 'ProtocolMixin.issubclass|inherited-orig', f.where,
+                    'the helper normalises classes through getattr(cls, '
+                    '"__orig__"): a class that extends a customized class '
+                    '(Uuid extends Unicode(pattern=...)) inherits that '
+                    'attribute, so its parent type is accepted in its place '
+                    '(xsi:type="xs:string" in a Uuid slot delivers a str)')
+    # the xsi:type guard handles arrays
+    x = prog.cls('spyne.protocol.xml:XmlDocument').methods.get('from_element')
+    used = [call_name(e) for node in walk_no_defs(x.node)
+            if isinstance(node, ast.If) for e in ast.walk(node.test)
+            if isinstance(e, ast.Call) and call_name(e) in GUARD_HELPERS and
+            len(e.args) == 2 and unparse(e.args[1]) == 'cls']
+    res.floor('R5', 'subclass guards in XmlDocument.from_element', len(used),
+              1)
+    for nm in sorted(set(used)):
+        g = c.methods.get(nm)
+        arrays = g is not None and any(
+            call_name(e) == 'issubclass' and len(e.args) == 2 and
+            unparse(e.args[1]).endswith('Array') for e in calls_in(g.node)) \
+            and '_type_info' in unparse(g.node)
+        res.ob('R5', x.where, 'from_element guards the xsi:type class with '
+               '%s, which %s' % (nm, 'compares array member types' if arrays
+                                 else 'does not look at array members'),
+               'ok' if arrays else 'VIOLATED')
+        if not arrays:
+            res.finding('R5', 'XmlDocument.from_element|array-members|%s' %
+                        nm, x.where, 'the xsi:type guard %s does not compare '
+                        'the member types of array classes: every Array(X) '
+                        'is a customisation of Array, so xsi:type="CArray" '
+                        'is accepted in an Array(D) slot and user code '
+                        'receives C instances' % nm)
 
 
 def rule_r6(prog, res):
@@ -564,6 +679,7 @@ def rule_r8(prog, res):
 
 
 def run(prog, res, tier):
+    guard_helpers(prog)
     res.run_rule(rule_r1, prog, res)
     res.run_rule(rule_r2, prog, res)
     res.run_rule(rule_r3, prog, res)
@@ -581,6 +697,22 @@ _Y = 'spyne/protocol/yaml.py'
 _C = 'spyne/model/complex.py'
 
 MUTANTS = [
+    Mutant('orig-read-through-inheritance', 'R5', 'fire',
+           'spyne/protocol/_base.py',
+           in_func('ProtocolMixin.issubclass',
+                   "suborig = sub.__dict__.get('__orig__', None)",
+                   "suborig = getattr(sub, '__orig__', None)"),
+           'inherited-orig'),
+    Mutant('xsi-guard-without-array-members', 'R5', 'fire', _X,
+           in_func('XmlDocument.from_element',
+                   "if not self.is_substitutable(newclass, cls):",
+                   "if not self.issubclass(newclass, cls):"),
+           'array-members'),
+    Mutant('array-members-inverted', 'R5', 'fire', 'spyne/protocol/_base.py',
+           in_func('ProtocolMixin.is_substitutable',
+                   "return pcls.is_substitutable(smember, cmember)",
+                   "return pcls.is_substitutable(cmember, smember)"),
+           'is_substitutable'),
     Mutant('enum-literal-by-hasattr', 'R7', 'fire', 'spyne/model/enum.py',
            in_func('EnumBase.validate_string', "and value in cls.__values__",
                    "and value is not None and hasattr(cls, value)"),
@@ -620,7 +752,7 @@ MUTANTS = [
                    "        return issubclass(a, b)", regex=True), None),
     Mutant('xsi-type-unguarded', 'R1', 'fire', _X,
            in_func('XmlDocument.from_element',
-                   r"                if not self\.issubclass\(newclass, cls\):"
+                   r"                if not self\.is_substitutable\(newclass, cls\):"
                    r"\n(.*?)raise ValidationError\(xsi_type\)\n\n"
                    r"                cls = newclass",
                    "                cls = newclass", regex=True), 'newclass'),
